@@ -168,12 +168,13 @@ pub fn run(tier: Tier) -> i32 {
     let ctx = Ctx::new("C19", tier, "fault_enumeration");
     // the whole thorough alphabet costs a few seconds: both tiers run it
     let quick = false;
-    let _ = ctx.quick();
+    // thorough: more plaintext lengths, every body bit of the first 64 bytes, every pattern for the encrypted-s part
+    let thorough = !ctx.quick();
     ctx.set_rule("case = (cipher x backend, read path in {handshake payload, stateful transport, stateless transport, Cipher::decrypt directly}, plaintext length in {4,16,17,64,1000}, alteration: every bit of the tag, every bit (stride 5 above 17 bytes) of the first 64 body bytes, wrong nonce, wrong ad, output buffer length in {pt, ct-1, ct, ct+1, 2*ct}); handshake messages with an encrypted static key before the payload (XX, IK, IX, XK, KX, X x 25519/P256 x payload {0,4,20,100}) altered in the payload body/tag only x 12 buffer sizes, where neither the payload nor the decrypted static key may appear; oracle: after Err the canary-filled output buffer contains no 8-byte (4 for short plaintexts) window of the rejected message's plaintext. non-trivial = the read was rejected");
     let mut cases: Vec<(CipherAlg, Backend, Path, usize, Alter, bool, usize)> = vec![];
     for (c, b) in cipher_backends() {
         for path in [Path::HandshakePayload, Path::Stateful, Path::Stateless] {
-            for plen in [4usize, 16, 17, 64, 1000] {
+            for plen in if thorough { vec![4usize, 5, 15, 16, 17, 31, 32, 33, 64, 255, 1000, 4096] } else { vec![4usize, 16, 17, 64, 1000] } {
                 let ct = plen + 16;
                 // alteration positions are relative to the whole message: for the handshake payload the
                 // message is e (32) || payload ct
@@ -183,7 +184,7 @@ pub fn run(tier: Tier) -> i32 {
                 for tb in tag_bits {
                     alts.push((Alter::FlipBit((base + plen) * 8 + tb), false));
                 }
-                let body_step = if plen > 17 { if quick { 13 } else { 5 } } else { 1 };
+                let body_step = if thorough { 1 } else if plen > 17 { if quick { 13 } else { 5 } } else { 1 };
                 for bb in (0..plen.min(64) * 8).step_by(body_step) {
                     alts.push((Alter::FlipBit(base * 8 + bb), false));
                 }
@@ -219,12 +220,24 @@ pub fn run(tier: Tier) -> i32 {
     // handshake messages that carry an encrypted static key before the payload (XX 2nd/3rd, IK 1st/2nd... message):
     // the alteration is confined to the payload's body or tag, so the key field decrypts and the message is
     // rejected afterwards; neither the key nor the payload plaintext may be in the caller's buffer
-    let mut scases: Vec<(CipherAlg, Backend, DhAlg, &str, usize, usize, Alter, usize)> = vec![];
+    let mut scases: Vec<(CipherAlg, Backend, DhAlg, String, usize, usize, Alter, usize)> = vec![];
     for (c, b) in cipher_backends() {
         for dh in [DhAlg::X25519, DhAlg::P256] {
-            for (pat, k) in [("XX", 1usize), ("XX", 2), ("IK", 0), ("IX", 1), ("XK", 2), ("KX", 1), ("X", 0)] {
+            // thorough: every (pattern, message) whose message carries an encrypted static key
+            let mut pairs: Vec<(String, usize)> = [("XX", 1usize), ("XX", 2), ("IK", 0), ("IX", 1), ("XK", 2), ("KX", 1), ("X", 0)].iter().map(|(a, b)| (a.to_string(), *b)).collect();
+            if thorough {
+                for bp in refnoise::patterns::base_patterns() {
+                    let p = proto(&bp.name, &[], dh, c, HashAlg::Blake2s);
+                    for k in 0..p.n_msgs() {
+                        if refnoise::state::field_map(&p, k, 0).iter().any(|f| f.kind == refnoise::state::FieldKind::S && f.encrypted) && !pairs.contains(&(bp.name.clone(), k)) {
+                            pairs.push((bp.name.clone(), k));
+                        }
+                    }
+                }
+            }
+            for (pat, k) in pairs {
                 for plen in [0usize, 4, 20, 100] {
-                    let p = proto(pat, &[], dh, c, HashAlg::Blake2s);
+                    let p = proto(&pat, &[], dh, c, HashAlg::Blake2s);
                     let fm = refnoise::state::field_map(&p, k, plen);
                     let Some(pf) = fm.iter().find(|f| f.kind == refnoise::state::FieldKind::Payload) else { continue };
                     let total = pf.start + pf.len;
@@ -236,7 +249,7 @@ pub fn run(tier: Tier) -> i32 {
                     let publen = dh.publen();
                     for a in alts {
                         for cap in [0usize, plen, plen + 15, plen + 16, publen, publen + 15, publen + 16, publen + 17, 100, 200, total, 2 * total] {
-                            scases.push((c, b, dh, pat, k, plen, a.clone(), cap));
+                            scases.push((c, b, dh, pat.clone(), k, plen, a.clone(), cap));
                         }
                     }
                 }
